@@ -437,6 +437,26 @@ func findRegion(x *Exec, fu *FuncUnit, uc *UnitContract) ([]ast.Stmt, error) {
 	var found [][]ast.Stmt
 	from, to := normWS(uc.From), normWS(uc.To)
 	try := func(list []ast.Stmt) {
+		if from == "$start" || from == "$liststart" {
+			// from the first statement of the function body ($start) / of the statement list that holds the `to`
+			// anchor ($liststart) up to that anchor
+			if len(list) == 0 || len(fu.Body.List) == 0 || (from == "$start" && list[0] != fu.Body.List[0]) {
+				return
+			}
+			for j := 0; j < len(list); j++ {
+				if x.anchorMatches(list[j], to) {
+					hi := j + 1
+					if uc.ToExcl {
+						hi = j
+					}
+					if hi > 0 {
+						found = append(found, list[0:hi])
+					}
+					break
+				}
+			}
+			return
+		}
 		for i, s := range list {
 			if uc.FromExcl || uc.ToExcl {
 				// exclusive anchors: the region's own first/last statements may be reordered, renamed or rewritten
@@ -673,9 +693,9 @@ func (x *Exec) coverAnteWith(owner string, c *Clause, st *State, point string, e
 }
 
 type vacuityReport struct {
-	Audited   int      `json:"implication_clauses_audited"`
-	Vacuous   []string `json:"vacuous"`
-	Undecided []string `json:"antecedent_reachability_undecided"`
+	Audited        int      `json:"implication_clauses_audited"`
+	Vacuous        []string `json:"vacuous"`
+	Undecided      []string `json:"antecedent_reachability_undecided"`
 	UncheckedExits []string `json:"regions_with_exits_not_under_contract,omitempty"`
 }
 
